@@ -72,6 +72,27 @@ fn load_world(repo: &Path, work: &Path) -> World {
     add_dir(repo.join("graphql_client_codegen/src/tests"), "codegen".into(), true);
     add_dir(repo.join("examples/hasura/examples"), "hasura".into(), false);
     add_dir(repo.join("examples/github/examples"), "github".into(), false);
+    // synthetic fixtures for features the repository's fixtures only have in an arguable form:
+    // deprecations with explicit reasons (fields and enum values), custom scalars, lists of lists
+    let syn: [(&str, &str, &str); 2] = [
+        (
+            "syn_deprecated__q",
+            "schema { query: Query }\ntype Query { currentUser: User, role: Role }\ntype User { id: ID!, name: String, oldName: String @deprecated(reason: \"Use name\"), legacy: Int @deprecated(reason: \"gone \\\"for good\\\"\") }\nenum Role { ADMIN OLD @deprecated(reason: \"x\") USER }\n",
+            "query Dep { currentUser { id name oldName legacy } role }\n",
+        ),
+        (
+            "syn_shapes__q",
+            "schema { query: Query mutation: Mut }\nscalar Stamp\ntype Query { grid: [[Int!]!]!, maybe: [[Stamp]], thing(id: ID! = \"1\", f: Filter = {n: 1}): Thing }\ntype Mut { touch(at: Stamp!): Stamp }\ninterface Thing { id: ID! }\ntype A implements Thing { id: ID!, a: [A!] }\ntype B implements Thing { id: ID!, b: Float }\nunion AB = A | B\ninput Filter { n: Int = 3, tags: [String!] = [\"x\"], inner: Filter }\n",
+            "query Shapes($f: Filter) { grid maybe thing(id: \"2\", f: $f) { __typename id ... on A { a { id } } ... on B { b } } }\n",
+        ),
+    ];
+    for (name, sdl, query) in syn {
+        let d = fxdir.join(name);
+        std::fs::create_dir_all(&d).unwrap();
+        std::fs::write(d.join("served.graphql"), sdl).unwrap();
+        std::fs::write(d.join("q.graphql"), query).unwrap();
+        fixtures.push(Fixture { name: name.to_string(), sdl_path: d.join("served.graphql").display().to_string(), query_path: d.join("q.graphql").display().to_string(), big: false });
+    }
     let mut docs = vec![];
     let gdir = repo.join("graphql_client_cli/src/graphql");
     if let Ok(rd) = std::fs::read_dir(&gdir) {
